@@ -1,8 +1,10 @@
 ---- MODULE EebusJsonM ----
 (* exhaustive enumeration: every top-level object whose members are scalars or containers of up to two scalars *)
 EXTENDS EebusJson
-CONSTANT Emit
-D0 == {[k |-> "num"], [k |-> "big"], [k |-> "lit"]} \cup {[k |-> "str", s |-> s] : s \in {<<"x">>, <<"[", "{">>, <<"[", "]">>, <<",">>, <<"q">>}}
+CONSTANTS Emit, Level
+D0 == IF Level = "quick"
+      THEN {[k |-> "num"], [k |-> "big"]} \cup {[k |-> "str", s |-> s] : s \in {<<"x">>, <<"[", "{">>, <<"q">>}}
+      ELSE {[k |-> "num"], [k |-> "big"], [k |-> "lit"]} \cup {[k |-> "str", s |-> s] : s \in {<<"x">>, <<"[", "{">>, <<"[", "]">>, <<",">>, <<"q">>}}
 D1 == D0 \cup Objs2(D0) \cup Arrs(D0)
 Top == Objs2(D1)
 VARIABLE d
@@ -17,5 +19,5 @@ KF_pattern_unwitnessed == ~(Class(d) = "pattern-in-string" /\ ~RoundTrip(d))
 D2s == D0 \cup Objs2({[k |-> "num"], [k |-> "str", s |-> <<"x">>], [k |-> "arr", e |-> <<[k |-> "obj", m |-> <<<<"a", [k |-> "num"]>>>>]>>],
                       [k |-> "obj", m |-> <<<<"a", [k |-> "arr", e |-> <<[k |-> "num"], [k |-> "num"]>>]>>>>],
                       [k |-> "arr", e |-> <<[k |-> "arr", e |-> <<[k |-> "obj", m |-> <<>>]>>]>>]})
-EmitRow == ~Emit \/ PrintT(<<"TEST", ToJson([doc |-> d, class |-> Class(d)])>>)
+EmitRow == ~Emit \/ PrintT(<<"TEST", ToJson([doc |-> d])>>)
 ====
